@@ -20,5 +20,5 @@ for p in list(pathlib.Path("harness").rglob("*.py")) + [pathlib.Path("check")]:
 sys.exit(bad)
 PY
 mkdir -p evidence replays
-[ $fail = 0 ] && echo "setup ok"
-exit $fail
+if [ $fail = 0 ]; then echo "setup ok"; else echo "setup: SANY reported problems (the owning checks will fail as machinery errors)"; fi
+exit 0
